@@ -2,6 +2,15 @@
 # Regenerates MANIFEST.json from the table below (single source of truth).
 import json
 CHECKS = {
+ "C01": dict(cat="exploration", technique="runtime monitor: real builds vs generator ground truth through an executable closure model + model-free self-closure invariant",
+   text="Worlds are rendered from abstract import lists (13 import forms, pragmas, headers, 9 media types, redirects, failures, resolver, configured imports), so the truth about what each module declares does not come from a parser. Every real build (3 kinds x options) is compared field by field with the closure model (entries and classes, redirects, per-dependency code/type target, attribute, static-vs-dynamic, types dependency) and checked by a model-free closure invariant. 12 000 builds quick, 600 000 thorough.",
+   note="model tier excludes jsr/npm/node/data schemes and asset/source-phase imports; generator enforces the same-type-attribute proviso and rejects worlds whose JSON/unknown entries are reachable in both lenient and strict contexts (order-dependent by design)", ref="§3 C01, Appendix A"),
+ "C17": dict(cat="exploration", technique="runtime monitor: relational check prune_types(All build) vs CodeOnly build",
+   text="Each generated world is built twice by the real builder (All then prune_types, sometimes after a fast-check pass; and CodeOnly) and the two graphs are compared: entries with class and message, redirects, code edges with dynamic flags, valid() verdict, no leftover type data, graph_kind().",
+   note="default build options (C17 quantifies over inputs); error entries compared by class and message, not referrer", ref="§5 C17"),
+ "C18": dict(cat="exploration", technique="runtime monitor: segment() vs original graph and vs direct build",
+   text="For graphs from generated worlds (3 kinds, with and without fast-check modules) and random segment roots among the modules: every dependency of every contained module must settle to the same module-or-error as in the original, resolve_dependency/try_get/validate must agree, and for non-root segment roots the contained specifier set must equal a direct real build's.",
+   note="configured type imports are dropped from CodeOnly worlds (the builder loads them but no walk of a code-only graph visits them; scoping decision in DESIGN)", ref="§5 C18"),
  "C02": dict(cat="exploration", technique="runtime monitor: validate()/errors()/valid() vs independent reachability evaluator; exhaustive failure placement + random worlds",
    text="The real validate()/errors()/valid() run on graphs built by the real builder and are compared with an evaluator that reads only public graph data: verdict equivalence both ways, reported error in the reachable-failure set, referrer among followed edges. Exhaustive failure placement (7 edge kinds^2 x 9 failure kinds x 0-3 redirect hops x 3 build kinds x 36 option sets x 2 root sets) plus seeded random worlds.",
    note="evaluator written from the statement; resolution errors on type edges count only for type-checked modules", ref="§3 C02"),
